@@ -358,7 +358,103 @@ func installCompleteness(p *Program, id string, root *ssa.Function) []Obligation
 		comp.Verdict, comp.Detail = Discharged, "boundary moved whenever the file is published; indices, configuration and log reset whenever the state machine is restored on a running node"
 	}
 	out = append(out, comp)
+	out = append(out, offsetReply(p, id)...)
 	return append(out, publishOwner(p, id)...)
+}
+
+// offsetReply: the sender resumes a transfer at whatever response.BytesWritten says (SNAP-HANDSHAKE). Once the handler
+// has read the position of the partial file, every successful return — the offset-mismatch return above all — must
+// carry a BytesWritten computed from that position; a reply that leaves it 0 sends the leader back to the start of the
+// file, the follower refuses offset 0 again, and a member holding two or more chunks never gets the rest.
+func offsetReply(p *Program, id string) []Obligation {
+	fn := p.Func("(*Raft).InstallSnapshot")
+	fld := p.Field("InstallSnapshotResponse.BytesWritten")
+	if fn == nil || fld == nil {
+		return missing(id, "(*Raft).InstallSnapshot / InstallSnapshotResponse.BytesWritten")
+	}
+	ob := Obligation{Rule: id, Construct: "IS-REPLY every reply sent after the partial file's position was read reports it in BytesWritten, in (*Raft).InstallSnapshot", Pos: p.Pos(fn.Pos())}
+	// the position: result #0 of SnapshotFile.Seek(0, io.SeekCurrent) on r.snapshot
+	var seek *ssa.Call
+	for _, b := range fn.Blocks {
+		for _, in := range b.Instrs {
+			if iface, m, c := invokeOf(in); iface == "SnapshotFile" && m == "Seek" && len(c.Args) == 2 && isConstInt(c.Args[0], 0) && isConstInt(c.Args[1], 1) {
+				if call, ok := in.(*ssa.Call); ok {
+					seek = call
+				}
+			}
+		}
+	}
+	if seek == nil {
+		ob.Verdict, ob.Detail = AnchorLost, "no SnapshotFile.Seek(0, io.SeekCurrent) in the handler"
+		return []Obligation{ob}
+	}
+	ob.Pos = p.InstrPos(seek)
+	fromSeek := func(v ssa.Value) bool {
+		var walk func(x ssa.Value, d int) bool
+		walk = func(x ssa.Value, d int) bool {
+			x = stripConv(x)
+			switch y := x.(type) {
+			case *ssa.Extract:
+				return y.Tuple == ssa.Value(seek) && y.Index == 0
+			case *ssa.BinOp:
+				return d < 6 && (walk(y.X, d+1) || walk(y.Y, d+1))
+			case *ssa.UnOp:
+				// response.BytesWritten += n : a load of the field itself, set from the position earlier
+				if fa, ok := y.X.(*ssa.FieldAddr); ok && fieldOf(fa.X.Type(), fa.Field) == fld {
+					return true
+				}
+			}
+			return false
+		}
+		return walk(v, 0)
+	}
+	reports := map[*ssa.BasicBlock]ssa.Instruction{}
+	for _, b := range fn.Blocks {
+		for _, in := range b.Instrs {
+			if st, f := storeField(in); st != nil && f == fld && fromSeek(st.Val) {
+				if _, dup := reports[b]; !dup {
+					reports[b] = in
+				}
+			}
+		}
+	}
+	bad := ""
+	seen := map[*ssa.BasicBlock]bool{}
+	var walk func(b *ssa.BasicBlock, from int)
+	walk = func(b *ssa.BasicBlock, from int) {
+		for i := from; i < len(b.Instrs); i++ {
+			if r, ok := reports[b]; ok && b.Instrs[i] == r {
+				return
+			}
+		}
+		if ret, ok := b.Instrs[len(b.Instrs)-1].(*ssa.Return); ok {
+			if len(ret.Results) > 0 && isNilConst(returnedValue(ret, len(ret.Results)-1)) {
+				bad = p.InstrPos(ret)
+			}
+			return
+		}
+		for _, sc := range b.Succs {
+			if !seen[sc] {
+				seen[sc] = true
+				walk(sc, 0)
+			}
+		}
+	}
+	start := 0
+	for i, x := range seek.Block().Instrs {
+		if x == ssa.Instruction(seek) {
+			start = i + 1
+		}
+	}
+	walk(seek.Block(), start)
+	if bad != "" {
+		ob.Verdict = Violated
+		ob.Detail = "the handler can answer (return nil at " + bad + ") after reading the position of the partial file without having stored it in response.BytesWritten: the sender seeks to the value it is given (0), the follower refuses that offset again, " +
+			"and a member that holds two or more chunks of a snapshot when one request is lost never receives the rest"
+	} else {
+		ob.Verdict, ob.Detail = Discharged, "every successful return after the position is read is preceded by a store of a value computed from it into response.BytesWritten"
+	}
+	return []Obligation{ob}
 }
 
 // publishOwner: SnapshotFile.Close on a file still in its temporary directory is the publish step (sync, rename into
